@@ -113,4 +113,13 @@ Fixpoint demand (rec : Z -> Z) (p : plan) : Z :=
 Fixpoint dsame (fuel : nat) (n : Z) : Z :=
   match fuel with O => 0 | S f => demand (dsame f) (plan_of n) end.
 
+(** the demand of the general product mul::add_signed_mul (len a >= len b): the chunk kernel, then the remainder *)
+Fixpoint dgen (fuel : nat) (la lb : Z) : Z :=
+  match fuel with
+  | O => 0
+  | S f =>
+      if lb <=? gen_mul_threshold_simple then 0
+      else Z.max (dsame (S (Z.to_nat lb)) lb) (let r := la mod lb in if r =? 0 then 0 else dgen f lb r)
+  end.
+
 End Scratch.
